@@ -1,7 +1,7 @@
 """Property id -> check function(prop, tier, seed) -> exit status."""
 import json
 
-from . import checks_sampler
+from . import checks_sampler, checks_ckpt
 
 CHECKS = {
     'C01': checks_sampler.check,
@@ -9,6 +9,7 @@ CHECKS = {
     'C03': checks_sampler.check,
     'C10': checks_sampler.check,
     'C12': checks_sampler.check,
+    'C05': checks_ckpt.check_c05,
 }
 
 
